@@ -92,3 +92,6 @@ func Short(b []byte) string {
 	}
 	return fmt.Sprintf("%x..(%d bytes)", b[:12], len(b))
 }
+
+// TS0 returns the current time (helper for one-line expressions).
+func TS0() time.Time { return time.Now() }
